@@ -75,8 +75,18 @@ class C02(SeqProp):
     projection_channels = {"class", "digests", "hex"}
 
     def weights(self):
-        return {"store": 8, "store_data": 2, "hex": 5, "delete": 1.5, "tag": 0.5, "div": 0.5, "retrieve": 0.2,
+        return {"store": 8, "store_data": 2, "hex": 6, "delete": 3, "tag": 0.5, "div": 0.5, "retrieve": 0.2,
                 "smeta": 0.2, "rmeta": 0.1, "dmeta": 0.1, "bad": 0.5}
+
+    def universe(self, rng, contents, store_alg):
+        u = super().universe(rng, contents, store_alg)
+        if rng.random() < 0.6:
+            # few pids, few contents, few digest algorithms: the same (pid, algorithm) question is then asked again
+            # after the pid was deleted and stored with other content, while other pids keep the old object alive
+            u.pids = ["p", "q", "pq"]
+            u.toks = rng.sample(u.toks, 2)
+            u.hex_pool = rng.sample(gen.DEFAULTS + gen.OTHERS, 2)
+        return u
 
     def owned(self, call, s, ctx):
         if call.name == "store_object" and s["class"] == "ok meta":
